@@ -1361,6 +1361,103 @@ theorem validate_error_iff (ph : Nat → Name) (inp : Input) (e : VErr) :
     · exact validate_minmaxError hc hg1 hg2 hm hmm
     · exact validate_dupMapped hc hg1 hg2 hm hd hmm
 
+/-! ### the real spelling of placeholder names -/
+
+theorem digitChar_inj {a b : Nat} (ha : a < 10) (hb : b < 10)
+    (h : Nat.digitChar a = Nat.digitChar b) : a = b := by
+  have h1 := Nat.toNat_digitChar_of_lt_ten ha
+  have h2 := Nat.toNat_digitChar_of_lt_ten hb
+  rw [h] at h1
+  omega
+
+theorem toDigits_ten_inj : ∀ (n m : Nat), Nat.toDigits 10 n = Nat.toDigits 10 m → n = m := by
+  intro n
+  induction n using Nat.strongRecOn with
+  | ind n ih =>
+    intro m h
+    rw [Nat.toDigits_eq_if (by decide) (n := n), Nat.toDigits_eq_if (by decide) (n := m)] at h
+    by_cases hn : n < 10 <;> by_cases hm : m < 10
+    · rw [if_pos hn, if_pos hm] at h
+      exact digitChar_inj hn hm (List.cons.inj h).1
+    · rw [if_pos hn, if_neg hm] at h
+      have := congrArg List.length h
+      simp only [List.length_cons, List.length_nil, List.length_append] at this
+      have := Nat.length_toDigits_pos (b := 10) (n := m / 10)
+      omega
+    · rw [if_neg hn, if_pos hm] at h
+      have := congrArg List.length h
+      simp only [List.length_cons, List.length_nil, List.length_append] at this
+      have := Nat.length_toDigits_pos (b := 10) (n := n / 10)
+      omega
+    · rw [if_neg hn, if_neg hm] at h
+      obtain ⟨h1, h2⟩ := List.append_inj' h rfl
+      have e1 := ih (n / 10) (by omega) (m / 10) h1
+      have e2 := digitChar_inj (Nat.mod_lt n (by decide)) (Nat.mod_lt m (by decide))
+        (List.cons.inj h2).1
+      omega
+
+/-- `f"unmapped_{k}_{stamp}"` as a list of characters -/
+def realPlaceholder (stamp : Nat → String) (k : Nat) : Name :=
+  ("unmapped_" ++ toString k ++ "_" ++ stamp k).toList
+
+theorem realPlaceholder_eq (stamp : Nat → String) (k : Nat) :
+    realPlaceholder stamp k =
+      "unmapped_".toList ++ (Nat.toDigits 10 k ++ '_' :: (stamp k).toList) := by
+  unfold realPlaceholder
+  rw [String.toList_append, String.toList_append, String.toList_append, Nat.toString_eq_repr,
+    Nat.toList_repr]
+  simp [List.append_assoc]
+
+theorem stripSuffix_append_of_all {l1 l2 : Name} (h : ∀ x ∈ l1, (x != '.') = true) :
+    stripSuffix (l1 ++ l2) = l1 ++ stripSuffix l2 := by
+  unfold stripSuffix
+  induction l1 with
+  | nil => rfl
+  | cons a as ih =>
+    have ha := h a (by simp)
+    rw [List.cons_append, List.takeWhile_cons, if_pos ha, ih (fun x hx => h x (by simp [hx]))]
+    rfl
+
+theorem digit_ne_dot {k : Nat} : ∀ x ∈ Nat.toDigits 10 k, (x != '.') = true := by
+  intro x hx
+  have := Nat.isDigit_of_mem_toDigits (by decide) (by decide) hx
+  rw [bne_iff_ne]
+  rintro rfl
+  revert this; decide
+
+theorem stripSuffix_realPlaceholder (stamp : Nat → String) (k : Nat) :
+    stripSuffix (realPlaceholder stamp k) =
+      "unmapped_".toList ++ (Nat.toDigits 10 k ++ '_' :: stripSuffix (stamp k).toList) := by
+  rw [realPlaceholder_eq, stripSuffix_append_of_all (by decide),
+    stripSuffix_append_of_all digit_ne_dot]
+  congr 2
+
+/-- the digits of a decimal number followed by `_` determine the number -/
+theorem digits_underscore_inj {a b : Nat} {r1 r2 : List Char}
+    (h : Nat.toDigits 10 a ++ '_' :: r1 = Nat.toDigits 10 b ++ '_' :: r2) : a = b := by
+  apply toDigits_ten_inj
+  have key : ∀ (k : Nat) (r : List Char),
+      (Nat.toDigits 10 k ++ '_' :: r).takeWhile Char.isDigit = Nat.toDigits 10 k := by
+    intro k r
+    exact (takeWhile_append_stop
+      (fun x hx => Nat.isDigit_of_mem_toDigits (by decide) (by decide) hx) (by simp)).1
+  rw [← key a r1, ← key b r2, h]
+
+/-- the real placeholder names of different counters differ, also after the
+version-suffix cut, whatever the time stamps are -/
+theorem realPlaceholder_injective (stamp : Nat → String) :
+    Function.Injective (fun k => stripSuffix (realPlaceholder stamp k)) := by
+  intro a b h
+  simp only [stripSuffix_realPlaceholder] at h
+  exact digits_underscore_inj (List.append_cancel_left h)
+
+/-- the driver's `placeholderT` is the real spelling with the fixed stamp `T` -/
+theorem realPlaceholder_T (k : Nat) :
+    realPlaceholder (fun _ => "T") k = ("unmapped_" ++ toString k ++ "_T").toList := by
+  have h : "_" ++ "T" = "_T" := by decide
+  show ("unmapped_" ++ toString k ++ "_" ++ "T").toList = _
+  rw [String.append_assoc, h]
+
 /-! ### a small example input -/
 
 /-- example input used by the non-vacuity examples of `CTM.Props.C16` -/
